@@ -480,7 +480,7 @@ class Profile:
                 remaining_service.handle = handle + 1
                 self.update_service(remaining_service)
                 handle = remaining_service.end_handle
-            self.__handle = handle
+            self.__handle = handle + 1
             return True
         except IndexError:
             return False
